@@ -205,4 +205,54 @@ MUTANTS = {
         checks=["C10"],
         edits=[(L, '_bad_octal_constant = "0[0-7]*[89]"', '_bad_octal_constant = "0[0-7]*[89]x"')],
     ),
+    "C14-if-iter": dict(
+        what="If.__iter__ no longer yields iffalse",
+        checks=["C14"],
+        edits=[(A, "        if self.iffalse is not None:\n            yield self.iffalse\n\n    attr_names = ()", "        if self.iffalse is not None:\n            pass\n\n    attr_names = ()")],
+    ),
+    "C14-arraydecl-attr": dict(
+        what="dim_quals dropped from ArrayDecl.attr_names",
+        checks=["C14"],
+        edits=[(A, '    attr_names = ("dim_quals",)', "    attr_names = ()")],
+    ),
+    "C14-children-order": dict(
+        what="For.children() lists stmt before next",
+        checks=["C14"],
+        edits=[(A, '        if self.next is not None:\n            nodelist.append(("next", self.next))\n        if self.stmt is not None:\n            nodelist.append(("stmt", self.stmt))', '        if self.stmt is not None:\n            nodelist.append(("stmt", self.stmt))\n        if self.next is not None:\n            nodelist.append(("next", self.next))')],
+    ),
+    "C14-method-cache-class": dict(
+        what="NodeVisitor method cache shared at class level between visitor instances and subclasses",
+        checks=["C14", "C13"],
+        edits=[(A, "    _method_cache = None\n", "    _method_cache = {}\n")],
+    ),
+    "C14-swap-ctor": dict(
+        what="Cast constructor parameters swapped (expr, to_type)",
+        checks=["C14"],
+        edits=[(A, "    def __init__(self, to_type, expr, coord=None):\n        self.to_type = to_type\n        self.expr = expr", "    def __init__(self, expr, to_type, coord=None):\n        self.to_type = to_type\n        self.expr = expr")],
+    ),
+    "C14-show-skips-none-children": dict(
+        what="show() prints an extra line for empty attribute lists",
+        checks=["C14"],
+        edits=[(A, '        if showcoord:\n            buf.write(f" (at {self.coord})")\n        buf.write("\\n")', '        if showcoord:\n            buf.write(f" (at {self.coord})")\n        buf.write("\\n")\n        if self.attr_names and not nvlist:\n            buf.write("\\n")')],
+    ),
+    "C15-repr-slots": dict(
+        what="__repr__ includes coord positionally (slots[:-1])",
+        checks=["C15"],
+        edits=[(A, "        for name in self.__slots__[:-2]:", "        for name in self.__slots__[:-1]:")],
+    ),
+    "C15-repr-quote": dict(
+        what="_repr quotes strings by hand",
+        checks=["C15"],
+        edits=[(A, "    else:\n        return repr(obj)", "    elif isinstance(obj, str):\n        return \"'\" + obj + \"'\"\n    else:\n        return repr(obj)")],
+    ),
+    "C15-deepcopy-identifiertype": dict(
+        what="IdentifierType.__deepcopy__ returns self (copies share nodes)",
+        checks=["C15"],
+        edits=[(A, "class IdentifierType(Node):\n    __slots__ = (\"names\", \"coord\", \"__weakref__\")\n", "class IdentifierType(Node):\n    __slots__ = (\"names\", \"coord\", \"__weakref__\")\n\n    def __deepcopy__(self, memo):\n        return self\n")],
+    ),
+    "C15-coord-reduce": dict(
+        what="Coord pickles without its column",
+        checks=["C15"],
+        edits=[(P, "    def __str__(self) -> str:\n        text = f\"{self.file}:{self.line}\"", "    def __reduce__(self):\n        return (Coord, (self.file, self.line))\n\n    def __str__(self) -> str:\n        text = f\"{self.file}:{self.line}\"")],
+    ),
 }
